@@ -25,7 +25,7 @@ FILTERED_SECTIONS = ("Pair", "EAM-Embed", "EAM-Density")
 RULE = ("one case = (generated pair/EAM/Finnis-Sinclair/ADP model, history of 2-12 operations: create filtered view "
         "(include/exclude; species set empty/single/partial/full/with unknown labels/with duplicates; list/tuple/set), read an "
         "attribute of a view or of the base parser, tabulate through a view or the base parser, drop a view) or one potable "
-        "invocation with --include-species/--exclude-species; every step is compared with a fresh parse of the hand-deleted "
+        "invocation with --include-species/--exclude-species (40 % of them combined with 1-3 -e/-r options on entries that survive the filter, the same options being given to the run on the hand-deleted file); every step is compared with a fresh parse of the hand-deleted "
         "file in a reference child. non-trivial = at least two live views with different (mode, species) AND a read/tabulate "
         "of an older view after a newer one was created (API route), or a CLI run whose filter deletes at least one entry; "
         "distinct = digest of (model, history).")
@@ -40,7 +40,7 @@ COMPONENTS = {
     "stubbed": [],
 }
 EXPECTED_PROBES = ["failing-read-then-other-view", "view-of-a-view", "same-species-set-under-both-modes", "two-live-views-different-filters", "older-view-read-after-newer-created", "empty-include-set", "empty-exclude-set",
-                   "unknown-label-in-set", "set-container", "tabulate-through-view", "base-read-after-view", "cli-include", "cli-exclude",
+                   "unknown-label-in-set", "set-container", "tabulate-through-view", "base-read-after-view", "cli-include", "cli-exclude", "cli-filter-combined-with-edits",
                    "filter-removes-all-entries", "zero-filled-species-after-filter"]
 
 
@@ -125,6 +125,44 @@ def model_species(spec):
     return sp or list(spec["meta"]["species"])
 
 
+def _add_cli_edits(sc, seed):
+    """Filter combined with -e/-r options (40 % of the CLI scenarios).  The edits touch only entries that survive
+    the filter, so "edit then filter" and "delete by hand then edit" mean the same file; both sides get the same
+    options.  Drawn from a side stream so that the scenarios generated before this existed are unchanged."""
+    rng = random.Random(mix64(seed, "c13-cli-edits"))
+    if rng.random() >= 0.4:
+        return
+    op = sc["ops"][0]
+    edited, _ = hand_delete(sc["model"], op["mode"], op["species"])
+    raw = {s["name"]: s["entries"] for s in sc["model"]["sections"]}
+    edits = []
+    touched = set()
+    for _ in range(rng.randint(1, 3)):
+        secs = [s for s in edited["sections"] if s["name"] in FILTERED_SECTIONS and s["entries"]]
+        if not secs:
+            break
+        sec = rng.choice(secs)
+        left = [e for e in sec["entries"] if (sec["name"], e[0]) not in touched]
+        if not left:
+            continue
+        k, v = rng.choice(left)
+        touched.add((sec["name"], k))
+        if rng.random() < 0.3 and len(left) >= 2 and len(sec["entries"]) - sum(1 for t in touched if t[0] == sec["name"]) >= 1:
+            edits.append(["-r", "%s:%s" % (sec["name"], k)])
+        else:
+            donors = [x[1] for x in raw[sec["name"]] if x[1] != v] or [v]
+            edits.append(["-e", "%s:%s=%s" % (sec["name"], k, rng.choice(donors))])
+    if edits:
+        op["edits"] = edits
+
+
+def _edit_args(op):
+    a = []
+    for e in op.get("edits") or []:
+        a += list(e)
+    return a
+
+
 def gen_scenario(seed, tier="quick"):
     rng = random.Random(seed)
     spec = mg.gen_model(rng, {"nr_max": 10, "nrho_max": 5, "max_species": 4, "tables_prob": 0.1,
@@ -137,6 +175,7 @@ def gen_scenario(seed, tier="quick"):
         kind, S = gen_species_set(rng, species)
         sc["ops"] = [{"op": "cli", "mode": rng.choice(["include", "exclude"]), "species": S, "setkind": kind,
                       "args_first": rng.random() < 0.5}]
+        _add_cli_edits(sc, seed)
         return sc
     sc["route"] = "api"
     attrs = list(READ_ATTRS_COMMON)
@@ -264,11 +303,11 @@ def execute(sc, reference=False):
             if reference:
                 edited, removed = hand_delete(spec, op["mode"], op["species"])
                 out["removed"] = removed
-                res = _run_potable(mg.render_ini(edited), scratch, [])
+                res = _run_potable(mg.render_ini(edited), scratch, _edit_args(op))
                 out["plain"] = _run_potable(ini, tempfile.mkdtemp(prefix="c13p-"), [])
             else:
                 flag = "--include-species" if op["mode"] == "include" else "--exclude-species"
-                res = _run_potable(ini, scratch, [flag] + list(op["species"]), args_first=op.get("args_first"))
+                res = _run_potable(ini, scratch, [flag] + list(op["species"]) + _edit_args(op), args_first=op.get("args_first"))
                 # a later plain invocation in the same process must be unaffected by the filter
                 out["plain"] = _run_potable(ini, tempfile.mkdtemp(prefix="c13p-"), [])
             out["ops"].append(res)
@@ -531,6 +570,10 @@ def _probes(sc, ref, res, bump):
     for op, e in zip(sc["ops"], ref.get("ops", [])):
         if op["op"] == "cli":
             bump("probe:cli-" + op["mode"])
+            if op.get("edits"):
+                bump("probe:cli-filter-combined-with-edits")
+                for ed_ in op["edits"]:
+                    bump("cli-edit" + ed_[0])
             if e.get("exit") != 0 or e.get("raised"):
                 bump("cli-hand-deleted-file-is-rejected")
         if op["op"] in ("view", "cli"):
